@@ -309,6 +309,23 @@ def alias_chain_depth(nodes):
     return best
 
 
+def double_neg_via_alias(nodes):
+    """some negation's operand is, after following aliases, itself a negation"""
+    def end(j):
+        d = 0
+        while j < len(nodes) and nodes[j][0] == ">" and d <= len(nodes):
+            j = nodes[j][1]
+            d += 1
+        return j
+    for i in range(2, len(nodes)):
+        j = end(i)
+        if j < len(nodes) and nodes[j][0] == "~":
+            c = end(nodes[j][1])
+            if c < len(nodes) and nodes[c][0] == "~":
+                return True
+    return False
+
+
 def alias_of_join(nodes):
     """some alias node's chain ends in a join"""
     for i, (k, a) in enumerate(nodes):
@@ -599,6 +616,11 @@ class View:
                 elif doc_pre:
                     self.fail("demorgan-exception", f"`{op}` answered {head} on a tree satisfying "
                               "the documented precondition (no alias, no double negation)")
+                elif kind == "crash" and not double_neg_via_alias(pre_nodes):
+                    self.dm_errors["crash-other"] = self.dm_errors.get("crash-other", 0) + 1
+                    self.fail("demorgan-crash-outside-precondition",
+                              f"`{op}`: transform_negated_joins crashed on a tree with alias "
+                              "nodes but without a double negation")
                 elif kind == "crash":
                     # outside the documented precondition the compiled-out assertions of
                     # DeMorganSimplifier can fail: a null NodeId reaches CsgTree::insert and the
@@ -618,16 +640,24 @@ class View:
                     self.fail("demorgan-exception", f"`{op}` answered {head}")
             else:
                 self.dm_depths.append(depth)
+                # with a double negation through an alias the compiled-out assertions may fail
+                # (the model then stops with "assert"; the real code has undefined behaviour and
+                # may return a garbage tree): a wrong result there is the known crash class
+                dn = double_neg_via_alias(pre_nodes)
+                kvol = "demorgan-crash-outside-precondition" if dn else "demorgan-changes-function"
                 if len(vols) != len(pre_vols):
-                    self.fail("demorgan-volumes", "transform_negated_joins changed the number "
-                              "of volumes")
+                    self.fail("demorgan-crash-outside-precondition" if dn else "demorgan-volumes",
+                              "transform_negated_joins changed the number of volumes")
                 else:
                     for i, (a, b) in enumerate(zip(pre_vols, vols)):
                         self.cmp += 1
                         if (pre_tab[a] ^ tab[b]) & M:
-                            self.fail("demorgan-changes-function", f"volume {i} (node {a} -> "
+                            self.fail(kvol, f"volume {i} (node {a} -> "
                                       f"{b}) changed its truth table under De Morgan rewriting "
-                                      f"(input tree had alias chains of depth {depth})")
+                                      f"(input tree had alias chains of depth {depth}"
+                                      + (", and a double negation through an alias: undefined "
+                                         "behaviour after a failed compiled-out assertion)"
+                                         if dn else ")"))
                             break
                 for i, (k, a) in enumerate(nodes):
                     if k == "~" and nodes[a][0] in "&|":
@@ -1877,7 +1907,7 @@ def run(ctx):
         pass        # already reported by proof_side
 
     # ---------------- scripts: corpus, malformed, then generated against the live harness
-    n_scripts = 2000 if quick else 20000
+    n_scripts = 2000 if quick else 14000
     chunk_size = 500
     live = Live(exe)
     model = [vlib.model_exe("C10")] if ps["model_ok"] else None
@@ -1915,6 +1945,12 @@ def run(ctx):
             if om is not None:
                 S["evals"] += len(s)
                 d = vlib.first_diff(oh[i], om[i])
+                if d is not None and s[d[0]] == "demorganx" and d[2].startswith("error crash"):
+                    # the model stopped at a compiled-out assertion (a null id reaches
+                    # CsgTree::insert: undefined behaviour); the real code usually crashes but
+                    # may also return garbage: nothing to compare from here on in this script
+                    S["ub_divergence"] = S.get("ub_divergence", 0) + 1
+                    d = vlib.first_diff(oh[i][:d[0]], om[i][:d[0]])
                 if d is not None:
                     S["diverged"].append({"script": s[:d[0] + 1], "impl": d[1][:300],
                                           "model": d[2][:300], "impl_out": oh[i][:d[0] + 1]})
@@ -2087,6 +2123,7 @@ def run(ctx):
         "demorgan_alias_chain_depths": {str(k): v for k, v in sorted(S.get("dm_depths", {}).items())},
         "demorgan_alias_chain_depth_max": max(S.get("dm_depths", {0: 0})),
         "demorganx_errors": S.get("dm_errors", {}),
+        "demorganx_undefined_behaviour_divergences": S.get("ub_divergence", 0),
         "coverage_gaps": (["transform_negated_joins never saw an alias chain of depth >= 2"]
                           if max(S.get("dm_depths", {0: 0})) < 2 else []),
         "infix_tables_compared": S.get("infix_defined", 0),
